@@ -193,6 +193,25 @@ def run(ctx):
         ok2 = any(t is not None and cl.edge_dom(bi, t, r.bb) for (bi, t) in eq_edges)
         ctx.ob('C18.2', cl, 'reread-before-rename', ok1, 'the lock record is re-read inside the cleanup before the rename', line=r.line)
         ctx.ob('C18.2', cl, 'pid-match-before-rename', ok2, 'the rename is reachable only when lock.pid == expected_pid', line=r.line)
+    # recovery does not hinge on the endpoint file: "lock only, dead pid" (the owner died between acquiring and publishing)
+    # must be cleanable, so nothing read from meta.json may decide whether the stale lock is retired
+    ctx.rule('C18.9', 'a crashed owner\'s lock is retired whatever became of its endpoint file: in the stale cleanup no test of what read_authority_meta returned can lead to a return that bypasses the rename of lock.json. The leftover state "lock.json of a dead pid, no meta.json" is what a crash between acquire and publish leaves; if the cleanup declines it, the store never becomes usable again.')
+    metas = cl.calls(r'local_authority::read_authority_meta$')
+    for r in lock_ren:
+        gate = None
+        for (bi, on, ts, els) in switches(cl):
+            if not cl.can_reach(bi, r.bb) or bi == r.bb:
+                continue
+            if not any(m_.dest and m_.dest['l'] in reads_locals(cl, on) for m_ in metas):
+                continue
+            for t_ in set(list(ts.values()) + [els]) - {None}:
+                if cl.blocks[t_]['t']['k'] == 'unreachable':
+                    continue
+                if not cl.must_pass([r.bb], t_, [x for x in cl.returns()]):
+                    gate = (bi, cl.blocks[bi]['t'].get('ln'))
+        ctx.ob('C18.9', cl, 'lock-retired-without-meta', gate is None,
+               'no test of meta.json stands between the identity check and the rename of lock.json' if gate is None else
+               'a test of what read_authority_meta returned (line %s) can return before lock.json is renamed: a dead owner that left a lock but no (matching) meta.json is never cleaned up — the store stays locked for good' % gate[1], line=r.line)
     csites = P.callers(r'local_authority::try_cleanup_corrupt_lock_file$')
     ctx.floor('C18.2', 'corrupt-cleanup call sites', len(csites), 2)
     for s in csites:
